@@ -111,7 +111,7 @@ func C13() int {
 		dollar = append(dollar, comps[rng.Intn(len(comps))])
 	}
 
-	reps := []string{"REDACTED", "", "Ωm_é", "a_b.c", "[x]"}
+	reps := []string{"REDACTED", "", "Ωm_é", "a_b.c", "[x]", "100%", "%s%d%%v"}
 	names := func() []string {
 		all := append([]string{}, comps...)
 		for _, p := range dotted {
@@ -176,7 +176,7 @@ func C13() int {
 	// replacement switched between every batch.
 	scriptB := []sut.AgentCmd{{"op": "poison_mapping", "names": sample[:5000]}}
 	wantsB = append(wantsB, want{})
-	for i, r := range []string{"[x]", "REDACTED", "Ωm_é", "REDACTED", "", "a_b.c"} {
+	for i, r := range []string{"[x]", "REDACTED", "Ωm_é", "REDACTED", "", "a_b.c", "100%", "%s%d%%v"} {
 		ord, tag := shuf, "B/shuffled"
 		if i%2 == 1 {
 			ord, tag = rev, "B/reversed"
@@ -337,18 +337,38 @@ func c13CLI(s *sut.SUT, c *ev.Check, g *gen.Gen, tab []string, names []string, n
 	var linesW, linesF [][]byte
 	type exp struct{ db, coll, f1, f2 int }
 	var exps []exp
+	var wantColls []string
+	idxSystem := -1
+	for j := 0; j < nC; j++ {
+		if names[j] == "system" {
+			idxSystem = j
+		}
+	}
+	if idxSystem < 0 {
+		return
+	}
 	for i := 0; i < 120; i++ {
 		e := exp{pick(4 * i), pick(4*i + 1), pick(4*i + 2), pick(4*i + 3)}
 		exps = append(exps, e)
-		ns := names[e.db] + "." + names[e.coll]
+		collName := names[e.coll]
+		wantColl := P(e.coll)
+		if i%3 == 1 { // dotted collection names: oplog.rs, system.buckets.x
+			collName = names[e.coll] + "." + names[e.f1]
+			wantColl = P(e.coll) + "." + P(e.f1)
+		} else if i%3 == 2 {
+			collName = "system." + names[e.coll] + "." + names[e.f2]
+			wantColl = P(idxSystem) + "." + P(e.coll) + "." + P(e.f2)
+		}
+		wantColls = append(wantColls, wantColl)
+		ns := names[e.db] + "." + collName
 		mk := func(nsPrefixOn bool) []byte {
 			db := names[e.db]
 			if nsPrefixOn {
 				db = "fdb" // fixed prefix for -f
 			}
 			l := jt.ObjN("t", jt.ObjN("$date", jt.StrN("2025-01-01T00:00:00.000Z")), "s", jt.StrN("I"), "c", jt.StrN("COMMAND"), "id", jt.IntN(51803), "ctx", jt.StrN("conn1"), "msg", jt.StrN("Slow query"),
-				"attr", jt.ObjN("type", jt.StrN("command"), "ns", jt.StrN(db+"."+names[e.coll]), "command",
-					jt.ObjN("find", jt.StrN(names[e.coll]), "filter", jt.ObjN(names[e.f1], jt.StrN("v"), names[e.f2], jt.ObjN("$gt", jt.IntN(3))), "sort", jt.ObjN(names[e.f1], jt.IntN(1)), "$db", jt.StrN(db))))
+				"attr", jt.ObjN("type", jt.StrN("command"), "ns", jt.StrN(db+"."+collName), "command",
+					jt.ObjN("find", jt.StrN(collName), "filter", jt.ObjN(names[e.f1], jt.StrN("v"), names[e.f2], jt.ObjN("$gt", jt.IntN(3))), "sort", jt.ObjN(names[e.f1], jt.IntN(1)), "$db", jt.StrN(db))))
 			return l.Bytes(jt.Plain)
 		}
 		_ = ns
@@ -361,7 +381,11 @@ func c13CLI(s *sut.SUT, c *ev.Check, g *gen.Gen, tab []string, names []string, n
 		for i, e := range exps {
 			if t, err := jt.ParseObject(ow[i].Out); err == nil {
 				got := t.Get("attr").Get("ns")
-				want := P(e.db) + "." + P(e.coll)
+				want := P(e.db) + "." + wantColls[i]
+				if fn := t.Get("attr").Get("command").Get("find"); fn == nil || fn.S != wantColls[i] {
+					c.Violation("cli-vs-inprocess|-w-find", fmt.Sprintf("command.find of collection %q comes out as %s under -w, component-wise P gives %q", names[e.coll], nodeBytes(fn), wantColls[i]),
+						map[string]any{"kind": "redact-line", "flags": []string{"-w"}, "input": string(linesW[i]), "output": string(ow[i].Out)})
+				}
 				c.Count("cli_pseudonyms_compared", 1)
 				if got == nil || got.S != want {
 					c.Violation("cli-vs-inprocess|-w", fmt.Sprintf("attr.ns %q.%q comes out as %s under -w, in-process P gives %q", names[e.db], names[e.coll], nodeBytes(got), want),
